@@ -14,6 +14,7 @@
 //!           | U(arrival,arrival)      -- sum_of
 //!           | R(arrival)              -- Rc<dyn ArrivalBound>
 //!           | N
+//!           | O(rate,epsilon)         -- ApproximatedPoisson::new(rate/10^4, epsilon/10^4)
 //! cost     := c(W) | m[w,w,..] | k[w,w,..] | x[w,w,..]
 //! supply   := D | Q(budget,period) | K(budget,deadline,period)
 //! ```
@@ -57,6 +58,10 @@ pub enum ArrDesc {
     SumOf(Box<ArrDesc>, Box<ArrDesc>),
     Rc(Box<ArrDesc>),
     Never,
+    /// `ApproximatedPoisson::new(rate / 10^4, epsilon / 10^4)`: a probabilistic bound without a
+    /// deterministic event process (its `number_arrivals(1)` may be 0 and its first step may
+    /// jump by several jobs); used as a *source* of derived curves only (C12)
+    Poisson(u64, u64),
 }
 
 impl ArrDesc {
@@ -116,6 +121,10 @@ impl ArrDesc {
                 Box::new(inner)
             }
             ArrDesc::Never => Box::new(Never {}),
+            ArrDesc::Poisson(r, e) => Box::new(arrival::ApproximatedPoisson::new(
+                *r as f64 / 10_000.0,
+                *e as f64 / 10_000.0,
+            )),
         }
     }
 
@@ -133,6 +142,7 @@ impl ArrDesc {
             ArrDesc::SumOf(..) => "sum_of",
             ArrDesc::Rc(_) => "Rc",
             ArrDesc::Never => "Never",
+            ArrDesc::Poisson(..) => "ApproximatedPoisson",
         }
     }
 }
@@ -159,6 +169,7 @@ impl fmt::Display for ArrDesc {
             ArrDesc::SumOf(a, b) => write!(f, "U({},{})", a, b),
             ArrDesc::Rc(a) => write!(f, "R({})", a),
             ArrDesc::Never => write!(f, "N"),
+            ArrDesc::Poisson(r, e) => write!(f, "O({},{})", r, e),
         }
     }
 }
@@ -320,6 +331,14 @@ impl<'a> Parser<'a> {
                 let j = self.num()?;
                 self.expect(b')')?;
                 Ok(ArrDesc::Sporadic(t, j))
+            }
+            Some(b'O') => {
+                self.expect(b'(')?;
+                let r = self.num()?;
+                self.expect(b',')?;
+                let e = self.num()?;
+                self.expect(b')')?;
+                Ok(ArrDesc::Poisson(r, e))
             }
             Some(b'C') => {
                 self.expect(b'[')?;
